@@ -6,7 +6,7 @@ HOOKS = {
     "add_only": True,
 }
 ENGINES = [
-    {"name": "seqx", "path": "/verif/lib", "serves_properties": ["C01", "C04"],
+    {"name": "seqx", "path": "/verif/lib", "serves_properties": ["C01", "C02", "C03", "C04"],
      "kind_free_text": "bounded exhaustive enumeration of operation sequences / inputs on the real code, compared step by step with independent reference models (lib/ref)"},
 ]
 NOTES = "See DESIGN.md. KNOWN_FINDINGS.txt lists genuine defects (fixed: / known:)."
@@ -16,6 +16,12 @@ META = {
     "C01": {"engine": "seqx", "design_ref": "§4 C01", "technique": SEQX,
             "text": "Every ordered sequence (length <=4 quick / <=6 thorough) over crafted digest sub-alphabets that reach every hyper-tree collision depth (0,23,24,27,28,31,32,128,254,255 shared bits), in every composition into Add/AddBulk groups, on the in-memory and the RocksDB back-end, plus long logs (n=70..257) and a 700/2100-event bulk: after every group every (event, query version) pair is queried on the real balloon and the proof is verified by the real DigestVerify (in-process and after the JSON round trip) and by an independent reference verifier against the snapshots actually issued. Exhaustive within those bounds; not a proof for all n.",
             "note": "Trusted: crypto/sha256, encoding/json, librocksdb 7.8 (port of the wrapper). Digests outside the alphabet and logs longer than the bound are not explored."},
+    "C02": {"engine": "seqx", "design_ref": "§4 C02", "technique": "bounded exhaustive enumeration of adversarial answers (Dolev-Yao recombination) against the real decoder+verifier",
+            "text": "For every log over a crafted sub-alphabet (all ordered sequences up to length 3 quick / 4 thorough) and queried digests incl. never-added ones sharing 24/128/254/255 bits with an added one: every candidate answer obtainable from the genuine answers of every prefix of the log by (i) setting every scalar field to every value of its domain, (ii) removing every subset of history entries combined with hyper-path truncations/extensions, (iii) replacing each entry by every other value that position ever had, (iv) recombining the hyper part of one answer with the history part and scalars of another, is decoded by the real protocol.ToBalloonProof and verified by the real DigestVerify against every authentic (history digest, hyper digest) pair; every accepted candidate must claim existence of a digest really inserted at the claimed version <= query version. ~5M verifier calls (quick).",
+            "note": "Adversary recombines known values only (collision resistance assumed). Panics of the verifier are C12's subject."},
+    "C03": {"engine": "seqx", "design_ref": "§4 C03", "technique": SEQX,
+            "text": "Logs of n=66 (quick) / 130 (thorough) events in three groupings; ALL pairs i<=j<n: the real QueryConsistency answer, JSON round trip, real IncrementalProof.Verify and the reference verifier must accept against snapshots i and j; every other version's digest at either end, the digests of a log forked at every point f<=j, every single audit-path entry flipped / removed / replaced by the forked log's node, and Start/End +-1 must be rejected; invalid ranges must be refused.",
+            "note": "History is digest-agnostic, so only n matters; fork digests come from the reference tree (bound to the code by C04)."},
     "C04": {"engine": "seqx", "design_ref": "§4 C04", "technique": SEQX,
             "text": "Same enumeration as C01 extended with history-LRU capacities {2,8,300}, every restart point (RocksDB) and forced-bulk singles: every snapshot's history and hyper digest is compared with an independent 60-line reference implementation of the position-salted history tree and the 256-level sparse Merkle tree; old history digests are re-derived from the store at the end; the in-memory hyper cache is compared with one rebuilt from storage.",
             "note": "The reference pins hyper inner nodes as H(right||left||pos) (what every published digest depends on). Replica dimension is C06's. Distinct events only for the hyper comparison, as the property states."},
